@@ -1603,6 +1603,14 @@ impl HandlerRunner {
                 let src = match rest.first() {
                     // `20`: another port on the host the datagram originally came from
                     Some(&"20") if (1..=3).contains(&d.from_idx) => node_addr(20 + d.from_idx),
+                    // `40`: the socket the original sender's record advertises (of the family it really uses)
+                    Some(&"40") if (1..=3).contains(&d.from_idx) => {
+                        let adv = self.nodes.iter().find(|n| n.idx == d.from_idx).and_then(|n| match n.addr {
+                            SocketAddr::V4(_) => n.enr.udp4_socket().map(SocketAddr::V4),
+                            SocketAddr::V6(_) => n.enr.udp6_socket().map(SocketAddr::V6),
+                        });
+                        adv.unwrap_or(d.src)
+                    }
                     // `30`: the IPv6 socket the original sender's dual-stack record advertises
                     Some(&"30") if (1..=3).contains(&d.from_idx) => alt6(d.from_idx),
                     Some(a) if a.parse::<u64>().map(|v| (31..=39).contains(&v)).unwrap_or(false) => alt6(a.parse::<u64>().unwrap() - 30),
@@ -2001,7 +2009,7 @@ pub fn gen_case(rng: &mut Rng, tier: &str, profile: &str, stats: &mut Stats) -> 
     let timeout = if c15 { 1000 } else { 400 };
     let dual_redirect = (profile == "C02" || profile == "C01" || profile == "C03") && rng.chance(1, 6);
     // every record advertises another port than the one its node really uses (as behind a NAT)
-    let nat_replay = !dual_redirect && (profile == "C01" || profile == "C03") && rng.chance(1, 6);
+    let nat_replay = !dual_redirect && (profile == "C01" || profile == "C03" || profile == "C02") && rng.chance(1, 6);
     if profile == "C03" && !dual_redirect && !nat_replay && rng.chance(1, 10) {
         // directed case: two requests in flight on a session, the peer challenges the first (it lost its
         // keys); the second is sealed again for the new session.  A challenge that echoes the nonce the
@@ -2071,6 +2079,13 @@ pub fn gen_case(rng: &mut Rng, tier: &str, profile: &str, stats: &mut Stats) -> 
         ops.push("hdel 2".into());
         if rng.chance(1, 2) { ops.push("hadv 30".into()); ops.push("hdel 2".into()); }
         for _ in 0..rng.range(0, 6) { ops.push("hdel next".into()); }
+        if rng.chance(2, 3) {
+            // a later, genuine datagram of that node is presented from the socket its record advertises
+            // (where it does not live) before it arrives from where it does
+            ops.push(format!("hreq {} {} enr 2 {}", x, y, rng.range(1, 4)));
+            ops.push("hdel last 40".into());
+            ops.push("hdel last".into());
+        }
         ops.push("hquiet".into());
         return ops;
     }
@@ -2491,7 +2506,8 @@ pub fn gen_case(rng: &mut Rng, tier: &str, profile: &str, stats: &mut Stats) -> 
                 4 => { ops.push(format!("hmut {} splice {}", k, rng.below(emitted))); ops.push("hdel last".into()); }
                 5 => ops.push(format!("hdel {} {} {}", k, rng.range(1, 9), rng.range(1, n))),
                 // the same bytes from another port of the host they came from
-                6 if rng.chance(1, 2) => ops.push(format!("hdel {} 20", if rng.chance(1, 2) { "last".to_string() } else { k.to_string() })),
+                // ... or from the socket their sender's record advertises (which need not be where it lives)
+                6 if rng.chance(1, 2) => ops.push(format!("hdel {} {}", if rng.chance(1, 2) { "last".to_string() } else { k.to_string() }, if rng.chance(1, 2) { 20 } else { 40 })),
                 _ => ops.push(format!("hdel {} {}", k, rng.range(1, 9))),
             }
             emitted += 1;
@@ -2510,7 +2526,7 @@ pub fn gen_case(rng: &mut Rng, tier: &str, profile: &str, stats: &mut Stats) -> 
             14..=55 => {
                 // (in adversarial cases an in-flight datagram now and then arrives from another port of
                 // its sender's host instead: the original never arrives)
-                if adversarial && rng.chance(1, 25) { ops.push(format!("hdel next {}", if rng.chance(1, 3) { 30 } else { 20 })); } else { ops.push("hdel next".into()); }
+                if adversarial && rng.chance(1, 25) { ops.push(format!("hdel next {}", match rng.below(4) { 0 => 30, 1 => 40, _ => 20 })); } else { ops.push("hdel next".into()); }
                 emitted += 1;
             }
             56..=58 => {
